@@ -71,6 +71,15 @@ class Hist:
             changes.append((pos, self.unique_word()))
         if changes and r.random() < 0.3:
             changes.append((changes[0][0], self.unique_word()))  # repeated position
+        if changes and r.random() < 0.25:
+            # a later record of the same message restores what was there before the message
+            p0 = changes[0][0]
+            before = self.rig.sim.block
+            if r.random() < 0.5:
+                changes.append((p0, before[p0 : p0 + 2]))
+            elif p0 + 3 <= 1024:
+                changes.append((p0 + 1, before[p0 + 1 : p0 + 3]))
+            self.sh.count("statp_with_restoring_record")
         self.rig.sim.set_block(apply_changes(self.rig.sim.block, changes))
         self.rig.sim.say(self.P.report_changes(self.rig.sim.sock, changes, parms=self.client_parms), self.client_parms)
         self.ops.append(("STATP", len(changes)))
@@ -282,6 +291,7 @@ def main(tier, seed):
     run.need(run.counters.get("acks_ok", 0) > 200, "too few acknowledgements observed")
     run.need(run.counters.get("sim_do_set", 0) > 20 and run.counters.get("silent_spa_changes", 0) > 20 and run.counters.get("refreshes", 0) > 20, "history ingredients missing")
     run.need("0" in run.sets.get("statp_sizes", set()), "no zero-change partial update sent")
+    run.need(run.counters.get("statp_with_restoring_record", 0) > 20, "no partial update with a record restoring the previous value")
     return run.finish(
         rule="histories of partial updates (0..12 changes of unique 2-byte values, repeated positions, the simulator's own 1-byte do_set form), silent spa-side changes and refreshes over the same positions; serial histories are compared after every event, burst histories (updates overlapping a refresh in time) after quiescence, against a reference that applies every delivered update once in processing order; one evaluation = one comparison point; distinct = distinct history prefixes",
         assumptions=["fault-free network (loss is C01's subject)", "a refresh carries the spa content sampled when the simulator dispatched the STATU", "positions inside the block (a 2-byte change at byte 1023 would grow the block - outside the statement as read)"],
